@@ -489,23 +489,41 @@ Qed.
 Definition expr_diags_exact (line col : nat) (quoted : bool) (ds : list (nat * fpos)) : Prop :=
   Forall (fun d => snd d = (line, qcol col quoted + fst d)) ds.
 
-Lemma check_raw_yaml_string_exact sem y :
+(* matrix values: the quoted flag is not passed, so the report is at
+   (line, col + o): exact for plain scalars ... *)
+Lemma check_raw_yaml_string_cols sem y :
   sem_consistent sem -> pos_plain (ys_val y) = true ->
   exists ds, check_raw_yaml_string sem y = map snd ds /\
-             expr_diags_exact (ys_line y) (ys_col y) (ys_quoted y) ds.
+             expr_diags_exact (ys_line y) (ys_col y) false ds.
 Proof.
   intros Hs Hp. unfold check_raw_yaml_string, check_raw_yaml_string_gen. cbn [andb].
   eexists. split; [reflexivity|]. now apply check_exprs_in_exact.
 Qed.
 
-(* the call site before repo_patches/pos/02: quoted matrix values were
-   reported one column too far left *)
-Lemma check_raw_yaml_string_old_refuted :
-  exists sem y o, sem_consistent sem /\ pos_plain (ys_val y) = true /\
-    check_raw_yaml_string_old sem y = [(ys_line y, qcol (ys_col y) (ys_quoted y) + o - 1)] /\
-    check_raw_yaml_string sem y = [(ys_line y, qcol (ys_col y) (ys_quoted y) + o)].
+Lemma check_raw_yaml_string_exact_partial sem y :
+  sem_consistent sem -> pos_plain (ys_val y) = true -> ys_quoted y = false ->
+  exists ds, check_raw_yaml_string sem y = map snd ds /\
+             expr_diags_exact (ys_line y) (ys_col y) (ys_quoted y) ds.
+Proof. intros Hs Hp Hq. rewrite Hq. now apply check_raw_yaml_string_cols. Qed.
+
+(* ... and with the (not applied) repair for every scalar *)
+Lemma check_raw_yaml_string_repaired_exact sem y :
+  sem_consistent sem -> pos_plain (ys_val y) = true ->
+  exists ds, check_raw_yaml_string_repaired sem y = map snd ds /\
+             expr_diags_exact (ys_line y) (ys_col y) (ys_quoted y) ds.
 Proof.
-  exists (pos_sem [4] []), (mkYstr "${{ foo }}" true 6 13), 4. split; [|split; [reflexivity|split; vm_compute; reflexivity]].
+  intros Hs Hp. unfold check_raw_yaml_string_repaired, check_raw_yaml_string_gen. cbn [andb].
+  eexists. split; [reflexivity|]. now apply check_exprs_in_exact.
+Qed.
+
+(* quoted matrix values are reported one column too far left (finding #7a) *)
+Lemma check_raw_yaml_string_quoted_refuted :
+  exists sem y o, sem_consistent sem /\ pos_plain (ys_val y) = true /\ ys_quoted y = true /\
+    check_raw_yaml_string sem y = [(ys_line y, qcol (ys_col y) (ys_quoted y) + o - 1)] /\
+    check_raw_yaml_string_repaired sem y = [(ys_line y, qcol (ys_col y) (ys_quoted y) + o)].
+Proof.
+  exists (pos_sem [4] []), (mkYstr "${{ foo }}" true 6 13), 4.
+  split; [|split; [reflexivity|split; [reflexivity|split; vm_compute; reflexivity]]].
   intros off src. unfold pos_sem.
   pose proof (pos_lex_all_consistent src) as H.
   destruct (pos_lex_all src) as [toks after|toks e|]; cbn [sr_errs].
@@ -685,7 +703,7 @@ Lemma check_raw_yaml_string_shift sem y dl dc :
   check_raw_yaml_string sem (ystr_shift dl dc y) = map (shift_pos dl dc) (check_raw_yaml_string sem y).
 Proof.
   unfold check_raw_yaml_string, check_raw_yaml_string_gen, ystr_shift. cbn [ys_val ys_quoted ys_line ys_col andb].
-  destruct (check_exprs_in_shift sem (ys_val y) (ys_line y) (ys_col y) (ys_quoted y) dl dc) as [H1 _].
+  destruct (check_exprs_in_shift sem (ys_val y) (ys_line y) (ys_col y) false dl dc) as [H1 _].
   rewrite H1, !map_map. reflexivity.
 Qed.
 
